@@ -6,7 +6,7 @@ use crate::fw::{flag, Ctx, Report};
 use crate::job::{Job, GEN_COUNT};
 use crate::pool;
 use crate::stats::Stats;
-use crate::svgcheck;
+use crate::termcheck as svgcheck;
 use oracle::rng::mix;
 use serde_json::json;
 
